@@ -45,6 +45,10 @@ def tlc(module, cfg_text, name, workers=8, env=None, beh_out=None, timeout=1800,
         e.update(env)
     if java_opts:
         e["JAVA_TOOL_OPTIONS"] = java_opts
+        # the POSTCONDITION is evaluated on the launcher's main thread, whose stack the `java` launcher sizes from its own options only
+        xss = [o for o in java_opts.split() if o.startswith("-Xss")]
+        if xss:
+            e["JDK_JAVA_OPTIONS"] = xss[0]
     t0 = time.time()
     logp = os.path.join(wd, name + ".log")
     res = {"module": module, "name": name, "states": 0, "distinct": 0, "depth": 0, "violated": None, "error": None, "beh": 0,
@@ -184,19 +188,28 @@ def supervise(binary, jobs, stall_s=20, max_restarts=50):
                         nj = dict(j, start=hb + 1)
                         np = start_job(binary, nj)
                         np["restarts"] = pr["restarts"] + 1
+                        np["hangs"] = pr.get("hangs", 0)
                         procs.append(np)
                 elif rc != 0:
                     raise ToolError("harness job failed rc=%s: %s" % (rc, pr["p"].stderr.read()[-2000:] if pr["p"].stderr else ""))
                 continue
-            if now - pr["t_hb"] > max(stall_s, j.get("stall_s", 0)) and hb is not None and hb != DONE:
+            # a stall is confirmed before it counts: the first time a job stops making progress on an item it is restarted ON that
+            # item with three times the patience (a loaded machine can starve a process; a call that does not return stalls again);
+            # once a job has a confirmed hang, its later stalls count at once
+            patience = max(stall_s, j.get("stall_s", 0)) * (3 if pr.get("suspect") == hb and hb is not None else 1)
+            if now - pr["t_hb"] > patience and hb is not None and hb != DONE:
                 pr["p"].kill()
                 pr["p"].wait()
                 procs.remove(pr)
-                incidents.append({"kind": "hang", "job": j, "item": hb, "input": cur_input(j)})
+                confirmed = pr.get("suspect") == hb or pr.get("hangs", 0) > 0
+                if confirmed:
+                    incidents.append({"kind": "hang", "job": j, "item": hb, "input": cur_input(j)})
                 if pr["restarts"] < max_restarts:
-                    nj = dict(j, start=hb + 1)
+                    nj = dict(j, start=(hb + 1) if confirmed else hb)
                     np = start_job(binary, nj)
                     np["restarts"] = pr["restarts"] + 1
+                    np["hangs"] = pr.get("hangs", 0) + (1 if confirmed else 0)
+                    np["suspect"] = None if confirmed else hb
                     procs.append(np)
     return incidents
 
